@@ -31,9 +31,21 @@ impl ReferentialIntegrity {
             return Ok(true);
         }
 
+        // Each term has to exclude recycled and tombstoned entries itself. The ignore-hidden
+        // mask that filter!() adds is applied to the *union* of the inclusion, after the
+        // "every term matched something" decision was already made, so a reference to a
+        // recycled entry would pass whenever any other referenced uuid is live.
         let inner: Vec<_> = inner
             .iter()
-            .map(|u| f_eq(Attribute::Uuid, PartialValue::Uuid(*u)))
+            .map(|u| {
+                f_and(vec![
+                    f_eq(Attribute::Uuid, PartialValue::Uuid(*u)),
+                    f_andnot(f_or(vec![
+                        f_eq(Attribute::Class, EntryClass::Tombstone.into()),
+                        f_eq(Attribute::Class, EntryClass::Recycled.into()),
+                    ])),
+                ])
+            })
             .collect();
 
         // F_inc(lusion). All items of inner must be 1 or more, or the filter
